@@ -41,6 +41,8 @@ type histRun struct {
 	rids      map[string]uint64
 	dsids     map[string]uint32
 	conts     map[string][]*server.RelatedFrom // saved query continuations by label
+	withJobs  bool
+	msources  map[string]*msJob // C18: the MultiSource of a job lives as long as the hub (like a scheduled job's pipeline)
 }
 
 func toEntity(m M) *server.Entity {
@@ -398,7 +400,8 @@ func runStoreHist(c *Ctx, in M) (M, interface{}) {
 	storeRunN++
 	dir := filepath.Join(c.Dir, fmt.Sprintf("st%d", storeRunN))
 	r := &histRun{c: c, dir: dir, rids: map[string]uint64{}, dsids: map[string]uint32{}, conts: map[string][]*server.RelatedFrom{}}
-	r.h = OpenHub(dir, false)
+	r.withJobs = getb(in, "jobs")
+	r.h = OpenHub(dir, r.withJobs)
 	defer func() {
 		r.h.Destroy()
 		if r.rest != nil {
@@ -424,6 +427,8 @@ func runStoreHist(c *Ctx, in M) (M, interface{}) {
 			switch gets(op, "op") {
 			case "createDs", "store", "txn", "deleteDs", "renameDs":
 				r.mutate(i, op)
+			case "msrun":
+				obs = append(obs, r.msrun(op))
 			case "crash":
 				r.crash(i, op)
 				obs = append(obs, M{"landed": getb(op, "landed")})
@@ -478,7 +483,8 @@ func runStoreHist(c *Ctx, in M) (M, interface{}) {
 				}
 			case "reopen":
 				r.h.Close()
-				r.h = OpenHub(dir, false)
+				r.h = OpenHub(dir, r.withJobs)
+				r.msources = nil // a restarted hub builds its jobs anew
 				if r.bm != nil { // a restarted hub builds a new backup manager (cursor reloaded from the location)
 					bm, err := server.VerifNewBackupManager(r.h.Store, r.backupDir, false, quietLogger())
 					if err == nil {
@@ -742,7 +748,7 @@ func (g *storeGen) queries(opIdx int, nops int) []M {
 
 var storeProfiles = map[string][]int{
 	"c01": {0, 0, 2, 3}, "c02": {1}, "c03": {4, 5}, "c06": {2, 4, 5}, "all": {0, 1, 2, 3, 4, 5},
-	"c04": {0, 1, 1, 2, 3, 4, 5}, "c20": {0, 1, 2, 4}, "c07": {0, 1, 2, 3, 4, 5, 6}, "c19": {6, 6, 0}, "c12": {0, 1, 2, 3, 4, 5}, "c14": {0, 1, 2, 4, 6},
+	"c04": {0, 1, 1, 2, 3, 4, 5}, "c18": {1, 2, 4, 5}, "c20": {0, 1, 2, 4}, "c07": {0, 1, 2, 3, 4, 5, 6}, "c19": {6, 6, 0}, "c12": {0, 1, 2, 3, 4, 5}, "c14": {0, 1, 2, 4, 6},
 }
 
 // a dataset with several hundred entities, listed with small pages by following the tokens
@@ -791,6 +797,9 @@ func genStore(c *Ctx, profile string) {
 	}
 	for i := 0; i < n; i++ {
 		g := &storeGen{kinds: storeProfiles[profile], atOnly: profile == "c06", c: c, ids: []string{"ns3:e1", "ns3:e2", "ns3:e3", "ns3:e4", "ns3:e5"}, preds: []string{"ns3:r1", "ns3:r2", "ns3:r3"}, dss: []string{"a", "b", "c"}[:2+c.Rng.Intn(2)]}
+		if profile == "c18" {
+			g.dss = []string{"a", "b", "c"}
+		}
 		ops := []M{}
 		for _, d := range g.dss {
 			op := M{"op": "createDs", "name": d}
@@ -913,6 +922,10 @@ func genStore(c *Ctx, profile string) {
 			for q := 0; q < 1+c.Rng.Intn(3); q++ {
 				ops = append(ops, g.queries(len(ops), nops)...)
 			}
+		}
+		if profile == "c18" {
+			doHist(c, M{"ops": withMsRuns(c, g, ops), "jobs": true})
+			continue
 		}
 		if profile == "c04" {
 			if len(crashPts.Points) == 0 {
